@@ -7,7 +7,7 @@
     udq.parse <tok>*                      -> ast <tree> | err (extra tokens / invalid tree)
     udq.eval <T> <ctx>* | <tok>*          -> ok <vt> <name-hex>=<bits|u>,… | err | noparse
     udq.hist <n> <ev>*                    -> <per step values>           (see `UdqHist.lean`)
-    udq.tokenize <item-hex>*              -> ok <tok>* | err (unbalanced quotes) | ub (no `]`: past the end)
+    udq.tokenize <item-hex>*              -> ok <tok>* | err (unbalanced quotes, table look-up without `]`)
                                              (`normalize_string_tokens` + `make_udq_tokens` of UDQDefine.cpp)
     udq.vtype <T> <tok>*                  -> ok <var_type code> <tree> | err | typeerr | throw | unmodelled
                                              (`parseUDQExpression` with the static type check; `T` = W|G|F)
@@ -288,7 +288,7 @@ def handle (op : String) (args : List String) : String :=
     | some items =>
       match Lex.tokenize (items.map String.toList) with
       | .unbalanced => "err"
-      | .pastEnd => "ub"
+      | .missingBracket => "err"
       | .ok ts => "ok" ++ String.join (ts.map fun t =>
           " " ++ (if t.ty = .number then "n:" ++ natHex16 (Lex.numberValue t.text).toBits.toNat
                   else if t.ty = .ecl_expr then
